@@ -454,6 +454,8 @@ package silence
 //@   ensures [stored-are-compiled] result == nil ==> (forall k string :: k in s.st ==> k in s.mi)
 //@   ensures [well-formed] result == nil ==> (forall k string :: k in s.st ==> s.st[k] != nil && s.st[k].Silence != nil && s.st[k].Silence.Id == k)
 //@   ensures [version-bumped] result == nil ==> s.version == old(s.version) + 1
+//@   ensures [listed-under-the-new-version] result == nil ==> (forall i int :: 0 <= i && i < len(s.vi) ==> s.vi[i].version == s.version)
+//@   loop 1 invariant s.version == old(s.version) && (forall i int :: 0 <= i && i < len(vi) ==> vi[i].version == old(s.version) + 1)
 //@   loop 1 invariant fresh(vi) && fresh(mi) && fresh(st) && mi != st
 //@   loop 1 invariant forall k string :: k in st ==> pre(k in st)
 //@   loop 1 invariant forall k string :: k in st ==> st[k] != nil && st[k].Silence != nil && st[k].Silence.Id == k
